@@ -28,7 +28,7 @@ type Spec struct {
 	Family    string // "direct": the armed operator is last, its output is the result; "reduce": ... -> Reduce(sum) tail
 	Site      string // reader writer map filter flatmap fold combiner repart scan none
 	Layout    string // key layout: distinct | fold | G | table | buffer | merge
-	Mode      string // err tempbase tempnet tempsentinel panic oorhi oorneg
+	Mode      string // err tempbase tempnet tempsentinel tempretriable panic oorhi oorneg
 	Pers      string // always | once
 	Chunk     int    // internal vector size in force in this process
 	N         int    // rows per source shard
@@ -247,6 +247,8 @@ func (s *Spec) fail() error {
 		return errors.E(errors.Temporary, s.Msg)
 	case "tempsentinel":
 		return errSentinel
+	case "tempretriable":
+		return errors.E(errors.Retriable, s.Msg)
 	case "tempnet":
 		return netTempErr{s.Msg}
 	case "panic":
